@@ -21,6 +21,7 @@ IMPORTS = ("From Coq Require Import String.\n"
            "Require Import Hdl21.Base.PyInt Hdl21.Spec.PySlice Hdl21.Model.Slice Hdl21.Model.Resolve Hdl21.Base.Design "
            "Hdl21.Spec.Nets Hdl21.Spec.WfDesign Hdl21.Base.Package Hdl21.Corr.C03 Hdl21.Corr.C01 Hdl21.Corr.C05.\n"
            "Open Scope string_scope.")
+MAX_TERMINALS = 120
 KINDS = ["portref", "noconn_named", "noconn_unnamed", "bundle", "array", "pair"]
 
 
@@ -720,14 +721,17 @@ def run(run, tier, seed, replay=None):
     # flatname
     run_flat(run, seed, 300 if quick else 4000)
     # adversarial gen_design
-    nbase = 110 if quick else 1800
-    designs, nren = [], 0
+    nbase = 110 if quick else 1200
+    designs, nren, nskip = [], 0, 0
     k = 0
     while len(designs) < 2 * nbase:
         r = core.rng(seed, "C05", "adversarial", k)
         k += 1
         base = D.gen_design(r, size=r.choice([1, 2, 2]) if quick else r.choice([1, 2, 3]), nested=r.random() < 0.5)
         base["bdefs"] = []
+        if len(terminals(base, lambda m, i, e, a: i)[0]) > MAX_TERMINALS:
+            nskip += 1
+            continue        # the net-partition evaluation in Coq is super-quadratic in the number of leaf terminals
         add_ref_groups(base, r)
         adv, n = adversarial(base, r)
         nren += n
@@ -735,9 +739,10 @@ def run(run, tier, seed, replay=None):
         designs.append(with_order(adv, True))
     outs, codes = run_designs(run, "adversarial", designs, min_collisions=["portref", "noconn_named", "noconn_unnamed", "array"])
     run.coverage["streams"]["adversarial"]["renames"] = nren
+    run.coverage["streams"]["adversarial"]["skipped_more_than_%d_terminals" % MAX_TERMINALS] = nskip
     run.sample(dict(stream="adversarial", design=designs[len(designs) // 2]))
     # structured
-    nbase = 90 if quick else 1500
+    nbase = 90 if quick else 900
     designs = []
     k = 0
     while len(designs) < 2 * nbase:
